@@ -431,6 +431,7 @@ impl<T: Flt> Runner<T> {
         if self.dead() {
             return;
         }
+        heartbeat();
         let (pre, gev) = self.getters();
         if gev > 0 {
             self.viol("C09", "getter-heap", idx, format!("{} heap events inside the getters", gev));
@@ -962,6 +963,37 @@ impl<T: Flt> Runner<T> {
         self.trace.probe = self.probe.as_ref().map(|p| p.lock().unwrap().clone());
         self.trace.cross = self.cross.as_ref().map(|p| p.lock().unwrap().clone());
         self.trace
+    }
+}
+
+static BEAT_ON: std::sync::atomic::AtomicBool = std::sync::atomic::AtomicBool::new(false);
+static BEAT_LAST: std::sync::Mutex<Option<std::time::Instant>> = std::sync::Mutex::new(None);
+
+/// Worker and evaluation-child processes switch this on: between two library calls (never inside one) a line
+/// `H` goes to stdout at most once per second, so that the supervisor's hang limit applies to a *call* that does
+/// not return, not to a long stream of calls that do. The line carries nothing and is not part of any result.
+pub fn enable_heartbeat() {
+    BEAT_ON.store(true, std::sync::atomic::Ordering::Relaxed);
+}
+
+pub fn heartbeat() {
+    if !BEAT_ON.load(std::sync::atomic::Ordering::Relaxed) {
+        return;
+    }
+    let now = std::time::Instant::now();
+    if let Ok(mut g) = BEAT_LAST.try_lock() {
+        let due = match *g {
+            Some(t) => now.duration_since(t).as_millis() >= 1000,
+            None => true,
+        };
+        if due {
+            *g = Some(now);
+            use std::io::Write;
+            let so = std::io::stdout();
+            let mut o = so.lock();
+            let _ = writeln!(o, "H");
+            let _ = o.flush();
+        }
     }
 }
 
